@@ -6,4 +6,5 @@ export CARGO_NET_OFFLINE=true
 cd "$ROOT/sim"
 cargo build --release --offline --bins 2>&1 | tail -3
 if [ -x "$ROOT/tools/c09_legs.sh" ]; then "$ROOT/tools/c09_legs.sh" setup; fi
+if [ -x "$ROOT/tools/c16_miri.py" ]; then "$ROOT/tools/c16_miri.py" setup; fi
 echo "setup ok"
